@@ -2,8 +2,8 @@
 
     internal/rules/mechanisms/authenticators/jwt_authenticator.go
         getKey (cache look-up before the fetch, cache fill after uniqueness + certificate check),
-        calculateCacheKey (endpoint hash + RENDERED key-set URL + kid + ttlHash(cache_ttl), the last since
-        fix: 8647e06), createRequest (the JWKS URL is a
+        calculateCacheKey (endpoint hash + RENDERED key-set URL + rendered values of templated headers (since
+        fix: 4a30678, C05-F6) + kid + ttlHash(cache_ttl) (since fix: 8647e06)), createRequest (the JWKS URL is a
         template over the token's UNVERIFIED `iss`: {{ .TokenIssuer }}), verifyTokenWithoutKID (never cached),
         isCacheEnabled / getCacheTTL (keys without certificates: cached iff the cache is enabled)
 
@@ -66,9 +66,10 @@ Record kstep := {
 Definition url_of (templated : bool) (t : token) : string :=
   if templated then c_iss (t_claims t) else EmptyString.
 
-(** the part of the cache key that stands for the request: calculateCacheKey takes the endpoint hash (over the
-    UNRENDERED header templates) and the rendered URL, so a template in a header value does not reach the key
-    (C05-F6).  [fixed_F6] = fixes/C05-F6.diff: the rendered values of templated headers are part of the key. *)
+(** the part of the cache key that stands for the request.  Before fix: 4a30678 (C05-F6) calculateCacheKey took
+    the endpoint hash (over the UNRENDERED header templates) and the rendered URL only, so a template in a
+    header value did not reach the key ([fixed_F6 = false], kept for the pinned theorems); the code as it is
+    ([fixed_F6 = true]) adds the rendered values of templated headers. *)
 Definition curl_of (fixed_F6 : bool) (s : kstep) (t : token) : string :=
   if fixed_F6 then url_of (s_templated s) t else url_of (s_tpl_url s) t.
 
